@@ -985,7 +985,42 @@ func randMembers(r *rand.Rand, t, fmtName string, depth, maxn int) []any {
 	return ms
 }
 
+// truncDocs: one well-formed document per literal form of the two grammars (signs, fractions, exponents, radix prefixes, float
+// suffixes, every escape form, both message delimiters, lists, extension names, comments). Totality at the end of input: every
+// prefix of every document goes through the decoder (a scanner that looks one byte ahead is exposed only when the input ends
+// exactly there, which random mutation practically never produces).
+var truncDocs = map[string][]string{
+	"text": {
+		"optional_float: 1e5", "optional_double: -2.5E+3", "optional_float: 1.5e-3f", "optional_float: .5", "optional_float: 5.",
+		"optional_int32: 0x1F", "optional_int32: -017", "optional_int64: -9223372036854775808", "optional_uint64: 18446744073709551615",
+		"optional_float: -inf", "optional_float: nan", "optional_double: - 1", "12e: 1", "12: 0x",
+		`optional_string: "a\x41\101\u00e9\U0001F600\n\?" 'b'`, `optional_bytes: "\xff\377\0"`,
+		"optional_nested_message { a: 1 }", "optional_nested_message: < a: 1 >", "repeated_int32: [1, -2]", "repeated_nested_message: [{a:1}, <a:2>]",
+		"optional_nested_enum: BAR", "optional_nested_enum: -1", "optional_bool: true", "optional_bool: t",
+		"[goproto.proto.test.optional_int32]: 1", "# c\noptional_int32: 1 # d", "map_int32_int32 { key: 1 value: 2 }", "optional_int32: 1; optional_int64: 2,",
+	},
+	"json": {
+		`{"optionalFloat": 1e5}`, `{"optionalDouble": -2.5E+3}`, `{"optionalDouble": 1.0e-308}`, `{"optionalFloat": "NaN"}`, `{"optionalFloat": "-Infinity"}`,
+		`{"optionalString": "a\u00e9\ud83d\ude00\n\/\\\""}`, `{"optionalInt32": "12"}`, `{"optionalInt32": 1.2e1}`, `{"optionalInt64": "-9223372036854775808"}`,
+		`{"optionalNestedMessage": {"a": 1}}`, `{"repeatedInt32": [1, -2]}`, `{"optionalBool": true}`, `{"optionalBool": false, "optionalInt32": null}`,
+		`{"optionalBytes": "AQI="}`, `{"optionalNestedEnum": "BAR"}`, `{"mapInt32Int32": {"1": 2}}`, `{"[goproto.proto.test.optional_int32]": 1}`, ` { "unknown" : [ { } , [ ] , -0.5 ] } `,
+	},
+}
+
+func genTrunc(emit func(core.Case)) {
+	for _, fmtName := range []string{"json", "text"} {
+		for _, doc := range truncDocs[fmtName] {
+			for _, t := range []string{"T", "X"} {
+				for k := 0; k <= len(doc); k++ {
+					emit(core.Case{"op": "fuzz", "fmt": fmtName, "t": t, "s": core.B([]byte(doc[:k])), "lim": 0, "du": k % 2, "trunc": 1})
+				}
+			}
+		}
+	}
+}
+
 func genC26(r *rand.Rand, n int, emit func(core.Case)) {
+	genTrunc(emit)
 	for i := 0; i < n; i++ {
 		fmtName := []string{"json", "text"}[r.IntN(2)]
 		switch x := r.IntN(20); {
